@@ -158,8 +158,10 @@ int runCases(const Opts& o, CaseFn fn) {
     FILE* idx = fopen(ip, "w");
     if (!idx) { perror(ip); return 2; }
     struct sigaction sa; memset(&sa, 0, sizeof sa); sa.sa_handler = onAlarm; sigaction(SIGALRM, &sa, 0);
+    long nWatchdog = 0, maxWatchdog = o.geti("maxwatchdogs", 6);
     for (long i = o.from; i < o.to; ++i) {
         char lp[512], ep[512];
+        if (nWatchdog >= maxWatchdog) { fprintf(idx, "%ld\tskipped_after_watchdogs\t0\n", i); continue; }   // bound the wall time of a run in which everything hangs
         snprintf(lp, sizeof lp, "%s/case_%ld.log", o.out.c_str(), i);
         snprintf(ep, sizeof ep, "%s/case_%ld.err", o.out.c_str(), i);
         if (o.nofork) {
@@ -198,7 +200,7 @@ int runCases(const Opts& o, CaseFn fn) {
         struct timespec t1; clock_gettime(CLOCK_MONOTONIC, &t1);
         double ms = (t1.tv_sec - t0.tv_sec) * 1e3 + (t1.tv_nsec - t0.tv_nsec) / 1e6;
         std::string status;
-        if (timedOut) status = "watchdog";
+        if (timedOut) { status = "watchdog"; ++nWatchdog; }
         else if (WIFEXITED(st)) {
             int c = WEXITSTATUS(st);
             if (c == 0) status = "ok"; else if (c == 77) status = "budget"; else if (c == 98 || c == 99) status = "harness"; else { char b[32]; snprintf(b, sizeof b, "exit:%d", c); status = b; }
